@@ -1923,6 +1923,9 @@ func (s *BgpServer) handleFSMMessage(peer *peer, e *fsmMsg) {
 			conf.State = oc.NeighborState{}
 			conf.State.NeighborAddress = conf.Config.NeighborAddress
 			conf.State.PeerAs = conf.Config.PeerAs
+			// the session state is not a counter: the next state change
+			// reports it as its old state
+			conf.State.SessionState = oc.IntToSessionStateMap[int(nextState)]
 			conf.Timers.State = oc.TimersState{}
 			peer.fsm.pConf.Update(&conf)
 			peer.fsm.bgpMessageResetStats()
